@@ -10,6 +10,8 @@
 //   lu m n <m*n hex>          construct LUDecomposition<double>; answer
 //                             piv <m ints> ; L <m*n hex> ; U <n*n hex> ; det <hex>
 //   solve mb nx <mb*nx hex>   solve with the current object; answer  minD <hex> ; X <rows cols> <hex...>
+//   solveip mb nx <mb*nx hex> X becomes B (class of X), then solve(X, X); answer as solve
+//   solvevip mb <mb hex>      x becomes b, then the vector overload solve(x, x); answer as solvev
 //   solvev mb <mb hex>        the std::vector overload of solve; answer  minD <hex> ; X <len> 1 <hex...>
 //   inv m n <m*n hex>         MatrixTools::inv(A, X); answer as solve
 //   invip m n <m*n hex>       X becomes A (class of X), then MatrixTools::inv(X, X); answer as solve
@@ -78,6 +80,23 @@ static std::string doOp(St& s, const Toks& t) {
     size_t pos = 1; auto B = parse(s.sB, t, pos);
     double d = s.lu->solve(*B, *s.X);
     return "minD " + hx(d) + " ; X " + show(*s.X);
+  }
+  if (o == "solveip") {
+    // solve(B, B): the right-hand side is also the output (class of X)
+    if (!s.lu) return "no-lu";
+    size_t pos = 1; s.X = parse(s.sX, t, pos);
+    double d = s.lu->solve(*s.X, *s.X);
+    return "minD " + hx(d) + " ; X " + show(*s.X);
+  }
+  if (o == "solvevip") {
+    if (!s.lu) return "no-lu";
+    size_t mb = toU(t.at(1));
+    s.xv.assign(mb, 0.0);
+    for (size_t i = 0; i < mb; ++i) s.xv[i] = hexToDouble(t.at(2 + i));
+    double d = s.lu->solve(s.xv, s.xv);
+    std::string r = "minD " + hx(d) + " ; X " + std::to_string(s.xv.size()) + " 1";
+    for (double v : s.xv) r += " " + hx(v);
+    return r;
   }
   if (o == "solvev") {
     if (!s.lu) return "no-lu";
